@@ -73,14 +73,21 @@ def synthetic_env():
         arch, isa = write_models(d)
         _SYN["v"] = synth.load(arch, isa)
         _SYN["dir"] = d
+        _SYN["pid"] = os.getpid()
+        import atexit
+
+        atexit.register(lambda: cleanup_synthetic() if _SYN.get("pid") == os.getpid() else None)
     return _SYN["v"]
 
 
 def cleanup_synthetic():
     import shutil
 
+    if _SYN.get("pid") not in (None, os.getpid()):
+        return                     # forked child: the directory belongs to the parent
     d = _SYN.pop("dir", None)
     _SYN.pop("v", None)
+    _SYN.pop("pid", None)
     if d:
         shutil.rmtree(d, ignore_errors=True)
 
